@@ -93,13 +93,17 @@ Definition realize_global_int (neg value : Z) : res Z :=
      else Ok (conv s64 value))                             (* PyLong_FromLongLong *)
   else Err FFIError.                                       (* "the C compiler says ... but the cdef disagrees" *)
 
-Inductive const_kind := KMacro | KEnumerator.
+Inductive const_kind :=
+| KMacro                (* '#define X <value>' / '#define X ...' / 'static const <int type> X;' *)
+| KEnumerator           (* enumerator of an enum declared without '...' *)
+| KEnumeratorPartial.   (* enumerator of 'enum e { A = 5, ... };' *)
 
 (* which value the recompiler passes as check_value *)
 Definition check_value_of (k : const_kind) (cdef : option Z) : option Z :=
   match k with
   | KMacro => if gen_macro_checked then cdef else None
   | KEnumerator => if gen_enumerator_checked then cdef else None
+  | KEnumeratorPartial => if gen_partial_enumerator_checked then cdef else None
   end.
 
 (* lib.X for a constant X of kind k whose C value is c (of promoted type T), declared in the
@@ -118,6 +122,45 @@ Definition lib_constant (k : const_kind) (T : cty) (c : Z) (cdef : option Z) : o
       | None => None
       end
   end.
+
+(* ------------------------------------------------------------------ (c) a constant as array length
+
+   src/c/parse_c_type.c:404-428  parse_sequel(), `case TOK_IDENTIFIER:` between '[' and ']':
+   ffi.typeof("char[N]"), ffi.new("char[N]"), ffi.cast("int( * )[N]", p), ffi.sizeof("char[N]") on the
+   ffi of an API-mode module look N up among the module's globals (search_in_globals); for an
+   integer constant / macro (_CFFI_OP_CONSTANT_INT) or an enumerator (_CFFI_OP_ENUM) the SAME
+   generated getter as for lib.N is called, and its return code and value are interpreted by the
+   statements regenerated as Gen.gen_ps_const_length.  (A name that is not such a global gives
+   "expected a positive integer constant"; not modelled: it is not a constant.) *)
+Definition const_array_length (k : const_kind) (T : cty) (c : Z) (cdef : option Z)
+  : option (res ps_len) :=
+  let accepted := match k with
+                  | KMacro => gen_ps_length_from_constant_int
+                  | KEnumerator | KEnumeratorPartial => gen_ps_length_from_enumerator
+                  end in
+  if negb accepted then Some (Ok (PSErr PSNotPositive))
+  else
+    match check_value_of k cdef with
+    | Some e =>
+        if negb (gen_check_in_domain e) then Some (Err BuildError)
+        else match const_getter T c (Some e) with
+             | Some (n, o) => Some (Ok (gen_ps_const_length n o))
+             | None => None
+             end
+    | None =>
+        match const_getter T c None with
+        | Some (n, o) => Some (Ok (gen_ps_const_length n o))
+        | None => None
+        end
+    end.
+
+(* what an array length given by a constant of C value c must be: the value itself when it is a
+   valid length (0 <= c <= SSIZE_MAX), an error otherwise *)
+Definition SSIZE_MAX : Z := 2 ^ 63 - 1.
+Definition length_of_value (c : Z) : ps_len :=
+  if c <? 0 then PSErr PSNotPositive
+  else if c <=? SSIZE_MAX then PSLen c
+  else PSErr PSTooLarge.
 
 (* ------------------------------------------------------------------ (b) structs *)
 
@@ -267,5 +310,20 @@ Definition reslayout_eqb (a b : res layout) : bool :=
   match a, b with
   | Ok x, Ok y => layout_eqb x y
   | Err x, Err y => err_eqb x y
+  | _, _ => false
+  end.
+
+Definition ps_err_eqb (a b : ps_err) : bool :=
+  match a, b with
+  | PSTooLarge, PSTooLarge | PSDisagree, PSDisagree | PSNotPositive, PSNotPositive => true
+  | _, _ => false
+  end.
+
+Definition reslen_eqb (a b : option (res ps_len)) : bool :=
+  match a, b with
+  | Some (Ok (PSLen x)), Some (Ok (PSLen y)) => x =? y
+  | Some (Ok (PSErr x)), Some (Ok (PSErr y)) => ps_err_eqb x y
+  | Some (Err x), Some (Err y) => err_eqb x y
+  | None, None => true
   | _, _ => false
   end.
